@@ -49,15 +49,7 @@ def check(ctx):
     # then continued; duplicates; impossible package numbers (logical clock; validated step by step by Trace_Extract)
     from checks import extract_common as xc
     xc.trace_extract(ctx, 300 if thorough else 40)
-    hx = os.path.join(ctx.scratch, "extract_hostile.ndjson")
-    ctx.vh_ok(["extract-hostile", hx], timeout=300)
-    hev = vlib.read_nd(hx, quoted=False)
-    for e in hev:
-        if e["panic"] or not e["alive"]:
-            ctx.violation("extractor-panic total=%d" % e["total"] if e["panic"] else "extractor-dead-after-oversized-transfer total=%d" % e["total"],
-                          "a transfer announcing %d packages, left idle and continued (variant %d): %s" % (e["total"], e["variant"], e["panic"] or "no frame extracted afterwards"),
-                          {"kind": "extract-hostile", "event": e})
-    ctx.note_impl("oversized-transfers-left-idle-through-the-extractor", len(hev))
+    xc.oversized_transfers(ctx)
     ctx.sample({"from": "hostile-catalogue", "names": [e["name"] for e in ev if e["ev"] == "hostile"][:20]})
     # attachment server: hostile sessions through the real connection loop (in-memory conn, exact close points), judged by Trace_Attach
     ac.trace_attach(ctx, 900 if thorough else 150, hostile=True, sig_prefix="attachment ")
